@@ -533,7 +533,16 @@ impl<Sp, const DIM: usize> Linear for Color<[f32; DIM], Sp> {
     }
 }
 
-impl<Sc, Sp, const N: usize> ZDiv for Color<[Sc; N], Sp> where Sc: ZDiv + Copy {}
+impl<Sc, Sp, const N: usize> ZDiv for Color<[Sc; N], Sp>
+where
+    Sc: ZDiv + Copy,
+{
+    /// Divides every channel, so that colors used as varyings are
+    /// perspective corrected like vectors and points are.
+    fn z_div(self, z: f32) -> Self {
+        self.0.map(|c| c.z_div(z)).into()
+    }
+}
 
 //
 // Foreign trait impls
